@@ -88,6 +88,37 @@ auto('C02', 'exploration',
      'exhaustive enumeration of token sequences + Hypothesis token soups / grammar programs / corpus mutations + every build file of the repository (+ atheris bytes in thorough) against the oracle: located MesonException XOR byte-exact RawPrinter round trip, and recorded extents of every call/array cut exactly that construct out of the text',
      'Extents are judged by an independent scanner (token boundaries) written for the check; exhaustive only up to the stated token bound; nesting deeper than the recursion budget is excluded from the campaigns (known finding C02 crash/RecursionError:print keeps a dedicated probe).')
 
+auto('C06', 'exploration',
+     'Hypothesis project models x variations (PYTHONHASHSEED, environment order and padding, shuffled directory listings via a sitecustomize shim, fresh / reconfigured / wiped / stale build directory) -> real meson setup at identical absolute paths; differential oracle: byte equality of build.ninja, intro-*.json, compile_commands.json, configure_file outputs, generated .pc files; mtime/inode stability of configure outputs after a no-change reconfigure',
+     'Directory order is perturbed at the Python API (os.listdir/scandir/glob), not in the file system; hash seeds are sampled; tool versions are fixed. One recorded finding (random names of anonymous dependencies in intro-targets.json) is normalised in the campaign and re-checked by a probe.')
+auto('C07', 'exploration',
+     'exhaustive enumeration of all 2^8 subsets of the eight documented sources (and 2^4 top-level subsets) per option kind + Hypothesis valid/invalid values, through the real CLI (in-process, disagreements re-run in a subprocess) and OptionStore; oracle: fold over the documented precedence list, buildtype/prefix derivation tables from Builtin-options.md, validity predicates per option type; read back through get_option() messages and introspect --buildoptions',
+     'The order of entries inside one source (default_options list, machine-file section) is not asserted; deprecated-option remapping and per-language inheritance are sampled. One recorded finding (sp:buildtype overriding an explicit sp:debug) is excluded from the tables and re-checked by a probe.')
+auto('C08', 'exploration',
+     'Hypothesis stateful histories (setup / configure -D / -U / reconfigure / wipe / option-file edits / injected failures) against a reference model of the option state, compared after every step through introspect --buildoptions, get_option() messages and cmd_line.txt; failing histories replayed with one fresh subprocess per command',
+     'Corners the documentation leaves open (type change of an option carrying a user value) are only required to be valid for the new declaration. Ten recorded findings are bucketed by root-cause signature, excluded from generation and re-checked by saved histories.')
+auto('C09', 'fault_enumeration',
+     'kill-point enumeration: for each generated history and mutating command the list of file-system mutations is recorded through a sitecustomize shim, then the command is re-run once per mutation (os._exit(137) before the operation, and torn half-writes) from a restored snapshot; oracle: the prescribed follow-up (setup / setup --reconfigure) exits 0 without unhandled exception and every option is either the pre-command or the intended value',
+     'Kill points are Python-level mutation calls (open/write/flush/close, replace, rename, unlink, mkdir, rmdir ...) and half-writes, not individual write(2) syscalls or post-crash reordering of unsynced data; histories are sampled, kill points per history are enumerated completely. After a killed FIRST setup meson reports the directory as configured; the follow-up it recommends (--reconfigure) is judged.')
+auto('C10', 'fault_enumeration',
+     'decision table: seeded sample (thorough: full cross product) of system version x constraint x provider kind x wrap_mode x force_fallback_for x required x allow_fallback cells and lookup sequences through real meson setup with a private pkg-config directory, against a decision function transcribed from the property / Subprojects.md / dependency.yaml; wrap integrity: generated wrap files with marker-carrying archives x acquisition location x corruption x step faults x second run, oracle: a marker may only appear if its archive matched the recorded sha256, nothing fetched under nodownload, no half-prepared directory accepted',
+     'Cells where the documentation is silent accept both outcomes (counted as weak); URLs are file:// and a local HTTP server through the same urllib path; git/hg/svn wraps carry no hash and are outside the verified-source clause.')
+auto('C11', 'exploration',
+     'Hypothesis install-rule projects x prefix/DESTDIR/umask/tags/skip-subprojects x histories (install, re-install, --dry-run, --only-changed, modify, uninstall) through real meson install; oracle: model of the expected tree (path, type, link target, mode, digest) derived from the build definition and Installing.md, full snapshot diff outside DESTDIR (and strace of file-modifying syscalls on a sample), install-log == created set, uninstall inverse, dry-run no-op, idempotence',
+     'Runs as root (no permission-denied paths); install scripts are only checked for containment of meson\'s own writes; an uninstall directly after --dry-run is undefined and not generated. Five recorded findings (rename+preserve_path, headers preserve_path+install_dir, three symlink-in-subdir cases) are excluded from generation and re-checked by probes.')
+auto('C12', 'exploration',
+     'Hypothesis test sets (parallel/serial, priorities, durations, exit codes, should_fail, timeouts, suites, TAP) x -j / --repeat / --maxfail / --suite / --slice through real meson test; the tests themselves append start/end records (pid, CLOCK_MONOTONIC) to an event log; oracle: exactly-once per repetition, no interval overlapping a serial test, at most J open intervals, classification table from Unit-tests.md, totals == testlog.json == model tally, exit status rule, slices partition the selection',
+     'The asyncio schedule is not owned by the harness: interleavings are varied through durations, so an exclusion race needing one specific interleaving may be missed; overlap of two self-reported intervals is a sound witness of concurrency, absence of overlap is not a proof. One recorded finding (--maxfail while a timed-out test is being killed) is masked in the campaign and re-checked by a saved case.')
+auto('C13', 'exploration',
+     'exhaustive enumeration of operation sequences up to the stated depth over a small argument alphabet + Hypothesis op sequences (construct, +=, append, extend, extend_direct, insert, setitem, delitem, copy, +, radd, interleaved reads) on CLikeCompilerArgs bound to the real detected gcc and on the base CompilerArgs, compared after every step with an eager reference list implementing the stated contract; plus an end-to-end slice (same -D/-I at global/project/target/dependency level -> ARGS in build.ninja)',
+     'len() before a flush and to_native(copy=False) followed by further use of the same object are excluded (destructive by design); the end-to-end probe checks the one real caller of that pattern (link arguments in intro-targets.json vs build.ninja).')
+auto('C14', 'exploration',
+     'Hypothesis templates assembled from placeholder-like fragments x configuration data x three formats (+ exhaustive short strings over a placeholder alphabet, header generation without template, sampled real configure_file) against an independent left-to-right scanner written from Configuration.md and validated on the repository fixtures; missing-name sets compared; every non-placeholder byte incl. line endings must be copied',
+     'For the cmake formats data values containing @ $ { } are excluded (CMake re-scan semantics are not claimed by the property). Three recorded findings (#mesondefine value re-scanned, name inside a #cmakedefine value not reported, placeholder after an empty cmake value skipped) are excluded from comparison in the campaign and re-checked by probes.')
+auto('C16', 'exploration',
+     'Hypothesis grammar programs decorated with a trivia strategy (comments in every position, continuations, blank runs, odd spacing, trailing commas, redundant parentheses, all string kinds) x formatter configurations (+ mutated corpus files, the repository format test inputs); oracle: independent reference lexer/parser gives the same tree modulo trivia / trailing commas / parentheses and the documented literal rewrites (strings compared by denotation), same comment sequence, format(format(x)) == format(x), --check-only / --check-diff agree with the diff, no non-Meson exception',
+     'Trusts harness/reffmt.py + refmeson (differentially self-tested against mparser on the repository build files). Seven recorded findings (one comment loss, one character loss inside a comment, five idempotence families) are classified by hazard predicates on the input text, excluded from the campaign and re-checked by probes.')
+
 NOT_YET = 'no check is registered for this property in this revision (see DESIGN.md section 8 for status)'
 
 
